@@ -1,7 +1,7 @@
 """C07 family 5: IPv4 flow specification (AFI 1, SAFI 133), OR-ed operator lists."""
 import re
 
-from props.c07 import Family, ip4, caddr, mask, coq_list, coq_bytes, coq_opt
+from props.c07 import Family, ip4, caddr, mask, coq_list, coq_bytes, coq_opt, size_targets
 
 CMP_TEXT = {1: '=', 2: '>', 3: '>=', 4: '<', 5: '<='}
 OP_TYPES = [3, 4, 5, 6, 7, 8, 9, 10, 11]
@@ -42,6 +42,61 @@ def nbytes(v):
     return max(1, (v.bit_length() + 7) // 8)
 
 
+def width(v):
+    """octets construct_operators writes for an operand (padded to 1, 2, 4 or 8)"""
+    n = nbytes(v)
+    return 1 if n <= 1 else 2 if n <= 2 else 4 if n <= 4 else 8
+
+
+def body_size(f):
+    """octets of the components of one rule as construct_nlri writes them (type 9 is left out)"""
+    n = sum(2 + (p[1] + 7) // 8 for p in (f['dst'], f['src']) if p)
+    return n + sum(1 + sum(1 + width(v) for _, v in o) for t, o in f['ops'].items() if t != 9)
+
+
+# rule body lengths at which the length prefix changes form (RFC 8955 4.1) or stops existing
+FS_FORM_SWITCH = 240
+FS_MAX = 4095
+FS_TYPES = [3, 4, 5, 6, 7, 8, 10, 11]      # the numeric components construct_nlri writes
+
+
+def sized_flow(rng, n, shape=None):
+    """a rule whose component octets are exactly n long (n >= 3): optional prefixes, 1..8 numeric
+    components, operands on 1, 2 and 4 octets"""
+    assert n >= 3, n
+    f = {'dst': None, 'src': None, 'ops': {}}
+    rest = n
+    shape = shape or rng.choice(['ops', 'ops', 'dst+ops', 'dst+src+ops', 'one-component'])
+    for key in ('dst', 'src'):
+        if key in shape:
+            k = rng.choice([1, 2, 3, 4])
+            if rest - (2 + k) >= 3:
+                l = rng.randrange(8 * (k - 1) + 1, 8 * k + 1)
+                f[key] = (mask(rng.getrandbits(32) | 1 << 31, l, 32), l)
+                rest -= 2 + k
+    ncomp = 1 if shape == 'one-component' else rng.randint(1, min(len(FS_TYPES), rest // 3))
+    types = sorted(rng.sample(FS_TYPES, ncomp))
+    parts = [2] * ncomp                      # octets of the operator items of each component
+    left = rest - 3 * ncomp
+    for _ in range(3):                       # a few big hand-outs, then the remainder to one component
+        if left > 0 and ncomp > 1:
+            k = rng.randrange(left + 1)
+            parts[rng.randrange(ncomp)] += k
+            left -= k
+    parts[rng.randrange(ncomp)] += left
+    for t, part in zip(types, parts):
+        items = []
+        while part:
+            cost = rng.choice([c for c in (2, 3, 5) if part - c == 0 or part - c >= 2])
+            v = {2: rng.randrange(256), 3: rng.randrange(256, 65536),
+                 5: rng.randrange(2 ** 24, 2 ** 32) if rng.random() < .9 else rng.randrange(65536, 2 ** 24)}[cost]
+            items.append((rng.choice([1, 2, 3, 4, 5]), v))
+            part -= cost
+        f['ops'][t] = items
+    assert body_size(f) == n, (body_size(f), n)
+    return f
+
+
 class Flow4(Family):
     name = 'ipv4_flowspec'
     imports = 'From YV Require Import lib.Base gen.Consts model.YMp model.YFlow4.\n'
@@ -49,6 +104,7 @@ class Flow4(Family):
     def gen(self, ctx):
         rng = ctx.rng
         cases = []
+        sizes = []          # component octets of every generated rule
         values = [0, 1, 255, 256, 65535, 65536, 2 ** 24 - 1, 2 ** 24, 2 ** 32 - 1]
 
         def pfx(l=None):
@@ -72,10 +128,6 @@ class Flow4(Family):
                 f['dst'] = pfx()
             return f
 
-        def size(f):
-            n = sum(2 + (p[1] + 7) // 8 for p in (f['dst'], f['src']) if p)
-            return n + sum(1 + sum(1 + nbytes(v) for _, v in o) for t, o in f['ops'].items() if t != 9)
-
         def add(kind, flows, nh=None):
             cls = []
             for f in flows:
@@ -85,10 +137,15 @@ class Flow4(Family):
                     cls.append('3-octet-operator-value')
                 if 9 in f['ops']:
                     cls.append('tcp-flags-component')
-                if size(f) >= 240:
-                    cls.append('nlri-240-octets-or-longer')
+            for i, f in enumerate(flows):
+                if body_size(f) >= FS_FORM_SWITCH and i + 1 < len(flows):
+                    # the only long-rule input class with a recorded defect: something follows the rule
+                    cls.append('nlri-240-octets-or-longer-not-last')
+                sizes.append(body_size(f))
             cases.append({'fam': self.name, 'kind': kind, 'v': {'flows': flows, 'nh': nh},
                           'cls': sorted(set(cls))})
+            if any(body_size(f) > FS_MAX for f in flows):
+                cases[-1]['unencodable'] = 'flow specification rule longer than 4095 octets'
 
         def nh():
             return rng.choice([None, rng.getrandbits(32), 0, 2 ** 32 - 1])
@@ -108,8 +165,55 @@ class Flow4(Family):
         # a rule of 240 octets or more
         big = {'dst': pfx(32), 'src': pfx(32), 'ops': {t: [(1, 2 ** 31 + i) for i in range(7)] for t in (3, 4, 5, 6, 7, 8, 10, 11)}}
         add('reach', [big], nh())
+        # ---- encoded-size boundaries: the rule length prefix.  Every body length around the switch of
+        # form (240) and around the last encodable one (4095), in MP_REACH and MP_UNREACH, in several
+        # shapes; the rule alone, as the last of two, and (known finding when >= 240) as the first of two
+        if ctx.thorough:
+            sweep = list(range(3, 300)) + list(range(4080, 4100)) + [rng.randrange(300, 4080) for _ in range(60)]
+            near = set(range(232, 250)) | set(range(4093, 4098))
+        else:
+            sweep = (list(range(3, 12)) + list(range(228, 262)) + [511, 512, 1023, 1024, 2047, 2048] +
+                     [4094, 4095, 4096, 4097] + [rng.randrange(262, 4094) for _ in range(6)])
+            near = set(range(236, 245)) | {4095, 4096}
+        for n in sweep:
+            for kind in ('reach', 'unreach'):
+                for _ in range(3 if n in near and n < 1000 else 1):
+                    add(kind, [sized_flow(rng, n)], nh())
+            if n in near:
+                short = sized_flow(rng, rng.choice([3, 9, 60, 239]))
+                for kind in ('reach', 'unreach'):
+                    add(kind, [short, sized_flow(rng, n)], nh())                  # long rule last
+                    if n <= FS_MAX:
+                        add(kind, [sized_flow(rng, n), short], nh())              # long rule first
+                    add(kind, [sized_flow(rng, n, 'one-component')], nh())
+        # two rules that are both at the switch
+        add('reach', [sized_flow(rng, 239), sized_flow(rng, 240)], nh())
+        add('unreach', [sized_flow(rng, 239), sized_flow(rng, 239), sized_flow(rng, 241)])
+        # ---- attribute value length (several short rules; each costs body + 1 octets)
+        for target, ok in size_targets(ctx):
+            for kind in ('reach', 'unreach'):
+                nhv = rng.getrandbits(32) if kind == 'reach' else None
+                room = target - (3 if kind == 'unreach' else 5 + 4)
+                flows, one = [], 200
+                while room > 0:
+                    b = one if room - (one + 1) >= 4 or room == one + 1 else room - 1
+                    flows.append(sized_flow(rng, b))
+                    room -= b + 1
+                add(kind, flows, nhv)
+                cases[-1]['huge'] = target > 60000
+                if not ok:
+                    cases[-1]['unencodable'] = 'attribute value of %d octets' % target
         c = {'fam': self.name, 'kind': 'unreach', 'v': {'flows': [], 'nh': None}, 'cls': [], 'empty': True}
         cases.append(c)
+        hist = {}
+        for n in sizes:
+            hist[n] = hist.get(n, 0) + 1
+        self.coverage = {'rule_body_octets': {
+            'min': min(sizes), 'max': max(sizes), 'distinct': len(hist),
+            'rules_at': dict((str(b), hist.get(b, 0)) for b in (239, 240, 241, 255, 256, 4094, 4095, 4096, 4097)),
+            'one_octet_form': sum(1 for n in sizes if n < FS_FORM_SWITCH),
+            'two_octet_form': sum(1 for n in sizes if FS_FORM_SWITCH <= n <= FS_MAX),
+            'beyond_4095': sum(1 for n in sizes if n > FS_MAX)}}
         return cases
 
     @staticmethod
@@ -175,6 +279,9 @@ class Flow4(Family):
             return fl
         return [[] if v['nh'] is None else [[4, v['nh']]], fl]
 
+    def describe(self, case):
+        return ' (rule bodies of %s octets)' % [body_size(f) for f in case['v']['flows']][:8]
+
     def classify(self, case, stage, obs):
         cls = case['cls']
         if stage == 'construct-exc':
@@ -186,8 +293,22 @@ class Flow4(Family):
                                                     for f in case['v']['flows']):
                 return K_T9
             return None
-        if 'nlri-240-octets-or-longer' in cls and stage in ('differs', 'parse-exc'):
-            return K_LONG
+        if 'nlri-240-octets-or-longer-not-last' in cls and stage in ('differs', 'parse-exc'):
+            # recorded behaviour: the reader uses 0xf000 | length unmasked, so the first long rule that
+            # is followed by another one swallows everything after it: the rules before it come back
+            # unchanged, then at most one (garbled) rule, or decoding raises.  A long rule in LAST
+            # position has to round trip and is not covered by this finding.
+            flows = case['v']['flows']
+            i = min(k for k, f in enumerate(flows) if body_size(f) >= FS_FORM_SWITCH and k + 1 < len(flows))
+            if stage == 'parse-exc':
+                return K_LONG
+            got = obs[1] if case['kind'] == 'reach' else obs
+            exp = self.expected(case)
+            exp = exp[1] if case['kind'] == 'reach' else exp
+            if isinstance(got, list) and got[:i] == exp[:i] and len(got) <= i + 1 and \
+                    (case['kind'] != 'reach' or obs[0] == self.expected(case)[0]):
+                return K_LONG
+            return None
         if stage == 'differs' and 'tcp-flags-component' in cls and obs == self.expected(case, drop9=True):
             return K_T9
         return None
